@@ -153,7 +153,7 @@ fn lat_jobs_scaled(jobs: &mut Vec<(usize, Job)>, n: usize, p: usize, aname: &str
                 jobs.push((
                     cells * 16 + alpha.len() + 8,
                     Job::new(
-                        format!("slat-{}-n{}p{}{}-x2^{}-{}{}{}", aname, n, p, if sorted { "-sorted" } else { "" }, exp, est, if d > 0 { "-" } else { "" }, tag),
+                        format!("scaled-{}-n{}p{}{}-x2^{}-{}{}{}", aname, n, p, if sorted { "-sorted" } else { "" }, exp, est, if d > 0 { "-" } else { "" }, tag),
                         json!({"kind": "lat", "n": n, "p": p, "est": est, "aname": aname, "alpha": alpha, "fixed": fixed, "exp": exp, "sorted": sorted}),
                     ),
                 ));
@@ -419,6 +419,7 @@ impl Harness for C14 {
             "PCA and truncated SVD draw no random numbers (no RNG seam on this path); the RNG call sites of /repo/src equal /verif/rng_sites.allow (checked at start-up)".into(),
             "in correlation mode the statement's 'standardised data' may use either the population or the sample standard deviation; whichever makes D*P orthonormal is accepted".into(),
             "f64 and DenseMatrix only; other backends are C20's subject".into(),
+            "rescaled lattices: multiplying by 2^e (|e| <= 40) is exact in f64 and no product of two entries leaves the normal range, so the input is exactly s*X and the statement (projections unchanged, variances x s^2) applies with the same relative tolerances".into(),
             "tolerances: orthonormality 64*p*eps; moments 1e-9*trace plus the rounding floor 64*eps*sum(|x|+|mu|)|P| of evaluating the affine map itself".into(),
         ]
     }
